@@ -27,7 +27,9 @@ EXTENDS Naturals, FiniteSets, TLC
 
 CONSTANTS Part, Deliverers, Closers, MaxReads,
           ChanClosedBy, WatcherQuitsOnDone, ListenerOrder, PingReaderCtx, KF_HalfCloseOnly,
-          PingUnrMax, PingErrSend
+          PingUnrMax, PingErrSend,
+          DeliveryHoldsRLock   \* FALSE = the code as it is (the registry read lock is released right after the lookup);
+                               \* TRUE = documented counter-example: it is held across the hand-over pc.recvChan <- md
 
 ASSUME Part \in {"socket", "stream", "listener", "ping"}
 ASSUME ChanClosedBy \in {"deliverer", "nobody"}
@@ -69,8 +71,11 @@ Init ==
 (* SOCKET: NewPacketConn.. (registered, StartUnreachable has run) is the initial state. *)
 
 \* handleMessageData 1711-1729: lookup under listenerLock.RLock
+Holders == {d \in Deliverers : dl[d] \in {"looked", "blocked"}}      \* deliverers between lookup and end of hand-over
+CloserWaiting == \E c \in Closers : cl[c] = "waiting"
 Deliver_Begin(d) ==
   /\ dl[d] = "idle"
+  /\ (DeliveryHoldsRLock => ~CloserWaiting)     \* a pending writer of a sync.RWMutex blocks new readers
   /\ dl' = [dl EXCEPT ![d] = IF reg /\ ctx = "live" THEN "looked" ELSE "done"]   \* else: dp_unknown
   /\ UNCHANGED <<reg, ctx, chan, adv, rd, nreads, cl, ncl, gUnsub, gFwd, gBroker, nodeSub>>
 
@@ -120,8 +125,13 @@ Read_Return ==
 
 \* PacketConn.Close 269-284, one critical section under listenerLock.Lock: registry delete, cancel, withdraw
 \* (RemoveLocalServiceAdvertisement tolerates a missing entry since a7e75c0).  The same action is CloseAgain.
-Close(c) ==
+Close_Call(c) ==     \* the application calls Close: listenerLock.Lock() is requested
   /\ cl[c] = "idle"
+  /\ cl' = [cl EXCEPT ![c] = "waiting"]
+  /\ UNCHANGED <<reg, ctx, chan, adv, dl, rd, nreads, ncl, gUnsub, gFwd, gBroker, nodeSub>>
+Close(c) ==
+  /\ cl[c] = "waiting"
+  /\ (DeliveryHoldsRLock => Holders = {})      \* the write lock waits for every read-lock holder
   /\ reg' = FALSE /\ ctx' = "cancelled" /\ adv' = FALSE
   /\ cl' = [cl EXCEPT ![c] = "done"] /\ ncl' = ncl + 1
   /\ UNCHANGED <<chan, dl, rd, nreads, gUnsub, gFwd, gBroker, nodeSub>>
@@ -140,7 +150,8 @@ SocketInternal ==
   \/ \E d \in Deliverers : Deliver_Block(d) \/ Deliver_Wake(d) \/ Deliver_Send(d) \/ Deliver_SendOnClosed(d)
   \/ Read_Closed \/ Read_Cancelled \/ Read_Return
   \/ Sub_Unsub \/ Sub_FwdEnd \/ Broker_End
-SocketEnv == (\E d \in Deliverers : Deliver_Begin(d)) \/ Read_Begin \/ (\E c \in Closers : Close(c))
+  \/ \E c \in Closers : Close(c)
+SocketEnv == (\E d \in Deliverers : Deliver_Begin(d)) \/ Read_Begin \/ (\E c \in Closers : Close_Call(c))
 
 SocketShutdown == /\ sctx = "live" /\ sctx' = "cancelled" /\ ctx' = "cancelled"
                   /\ UNCHANGED <<reg, chan, adv, dl, rd, nreads, cl, ncl, gUnsub, gFwd, gBroker, nodeSub>>
@@ -379,6 +390,8 @@ AllGoroutinesGone ==
 \* liveness: after Shutdown every background goroutine of the node ends (the application's own pending calls return)
 ShutdownStops == (sctx = "cancelled") ~> AllGoroutinesGone
 
+\* Close never waits for ever, whatever traffic is arriving and whether or not anybody reads
+CloseReturns == \A c \in Closers : (cl[c] = "waiting") ~> (cl[c] = "done")
 ListenerCloseReturns == (Part = "listener") => <>(lc = "done")
 
 TypeOK == chan \in {"open", "closed", "PANIC"} /\ ctx \in {"live", "cancelled"} /\ qc \in {"none", "open", "closed"}
